@@ -176,7 +176,9 @@ def run_harness(args, timeout=3000):
     for line in p.stdout.split("\n"):
         line = line.strip()
         if line.startswith("{"):
-            recs.append(json.loads(line))
+            r = json.loads(line)
+            r["_args"] = [str(a) for a in args]          # `vh replay` regenerates the case from these
+            recs.append(r)
     if p.returncode != 0:
         recs.append({"prop": args[0], "direct": "fail", "class": "harness.crash", "stderr": p.stderr[-2000:], "rc": p.returncode})
     return recs
